@@ -305,11 +305,22 @@ func (s *configurationStore) UpdateStatus(ctx context.Context, configuration *co
 	}
 
 	if configuration.Status.Applied.Values != nil {
+		// The applied values are stored before the configuration entry (a crash in between is repaired by applying
+		// the proposal again). A writer holding an outdated revision of the configuration also holds outdated
+		// applied values: it must fail without touching them
+		entry, err := s.configurations.Get(ctx, configuration.ID)
+		if err != nil {
+			return errors.FromAtomix(err)
+		}
+		if uint64(entry.Version) != configuration.Version {
+			return errors.NewConflict("configuration %s has been updated: version %d, expected %d", configuration.ID, entry.Version, configuration.Version)
+		}
 		applied, err := s.getApplied(ctx, configuration.ID)
 		if err != nil {
 			return err
 		}
-		if err := s.store(ctx, applied, configuration.Status.Applied.Values, false); err != nil {
+		// the values are the complete applied configuration: a delete marker dropped from them is dropped from the store
+		if err := s.store(ctx, applied, configuration.Status.Applied.Values, true); err != nil {
 			return err
 		}
 	}
